@@ -250,8 +250,18 @@ type wgResume struct{ wg *WaitGroup }
 //go:norace
 func (r wgResume) VrtReady(kind vrt.OpKind, t *vrt.Task) bool { return r.wg.sema > 0 }
 
+// Add and Wait are instrumented, non-inlined wrappers around norace bodies, so that
+// the caller's frame (the ebu function) appears in race reports raised by the
+// annotations below.
+//
+//go:noinline
+func (wg *WaitGroup) Add(delta int) { wg.add(delta) }
+
+//go:noinline
+func (wg *WaitGroup) Wait() { wg.wait() }
+
 //go:norace
-func (wg *WaitGroup) Add(delta int) {
+func (wg *WaitGroup) add(delta int) {
 	e := vrt.Cur()
 	if e == nil {
 		wg.real.Add(delta)
@@ -290,8 +300,8 @@ func (wg *WaitGroup) Add(delta int) {
 	wg.sema += int(w)
 }
 
-//go:norace
-func (wg *WaitGroup) Done() { wg.Add(-1) }
+//go:noinline
+func (wg *WaitGroup) Done() { wg.add(-1) }
 
 //go:norace
 func (wg *WaitGroup) Go(f func()) {
@@ -303,7 +313,7 @@ func (wg *WaitGroup) Go(f func()) {
 }
 
 //go:norace
-func (wg *WaitGroup) Wait() {
+func (wg *WaitGroup) wait() {
 	e := vrt.Cur()
 	if e == nil {
 		wg.real.Wait()
